@@ -212,13 +212,13 @@ func init() {
 		"math.Floor": func(e *Engine, st *State, args []Value) Value {
 			return e.ts.app(OpFFloor, SortFP, 0, 0, args[0].(*Term))
 		},
-		"crypto/sha256.Sum256": modelSum256,
-		"fmt.Errorf":           modelOpaqueErr,
+		"crypto/sha256.Sum256":                 modelSum256,
+		"fmt.Errorf":                           modelOpaqueErr,
 		"google.golang.org/grpc/status.Error":  modelOpaqueErr,
 		"google.golang.org/grpc/status.Errorf": modelOpaqueErr,
-		"fmt.Sprintf":          modelOpaqueStr,
-		"fmt.Sprint":           modelOpaqueStr,
-		"fmt.Sprintln":         modelOpaqueStr,
+		"fmt.Sprintf":                          modelOpaqueStr,
+		"fmt.Sprint":                           modelOpaqueStr,
+		"fmt.Sprintln":                         modelOpaqueStr,
 		"fmt.Fprintf": func(e *Engine, st *State, args []Value) Value {
 			return TupleV{[]Value{e.ts.BV(0, 64), IfaceV{}}}
 		},
